@@ -311,13 +311,17 @@ impl GlobWalker {
                 let entry = filtrate.as_ref();
                 let (_, path) = self::root_relative_paths(entry.path(), entry.depth(), pivot);
                 let depth = entry.depth().saturating_sub(1);
+                // Component programs are compiled from the nominal components of the glob, which
+                // include literal `.` and `..` components but never a root or prefix. Discard
+                // root and prefix components before skipping so that candidates remain aligned
+                // with their programs when the path is rooted.
                 for (position, candidate) in path
                     .components()
-                    .skip(depth)
                     .filter_map(|component| match component {
-                        Component::Normal(component) => Some(CandidatePath::from(component)),
-                        _ => None,
+                        Component::Prefix(_) | Component::RootDir => None,
+                        component => Some(CandidatePath::from(component.as_os_str())),
                     })
+                    .skip(depth)
                     .zip_longest(self.program.components.iter().skip(depth))
                     .with_position()
                 {
